@@ -10,9 +10,12 @@ Import ListNotations.
 (* ------------------------------------------------------------------------------------------------ *)
 Section Gen.
   Variables (L M : Type).
+  Variable cap : option nat.
+  (* every queue holds at least one message (cap >= 1, or unbounded) *)
+  Hypothesis cap1 : room M cap [] = true.
   Notation proc := (proc L M).
   Notation net := (net L M).
-  Notation gp := (gpath net nat (step L M)).
+  Notation gp := (gpath net nat (step L M cap)).
   Notation updp := (updp L M).
   Notation updq := (updq M).
 
@@ -58,9 +61,9 @@ Section Gen.
 
   (* ---- a computable test for "no process can move" ---- *)
   Definition stuckb (s : net) : bool :=
-    forallb (fun i => match fire L M s i with None => true | Some _ => false end) (seq 0 (length (procs s))).
+    forallb (fun i => match fire L M cap s i with None => true | Some _ => false end) (seq 0 (length (procs s))).
 
-  Lemma stuckb_sound s : stuckb s = true -> gterminal net nat (step L M) s.
+  Lemma stuckb_sound s : stuckb s = true -> gterminal net nat (step L M cap) s.
   Proof.
     unfold stuckb, gterminal, step. intros H i t Hf. rewrite forallb_forall in H.
     destruct (Nat.lt_ge_cases i (length (procs s))) as [Hlt|Hge].
@@ -100,31 +103,31 @@ Section Gen.
     Proof. apply updq_twice. Qed.
 
     Lemma s_local X Y A B f r : prog X = ALocal f :: r ->
-      step L M (st2 X Y A B) s (st2 {| loc := f (loc X); prog := r |} Y A B).
+      step L M cap (st2 X Y A B) s (st2 {| loc := f (loc X); prog := r |} Y A B).
     Proof. intros HX. unfold step, fire. rewrite st2_s, HX. unfold st2. simpl. rewrite st2_set_s. reflexivity. Qed.
     Lemma m_local X Y A B f r : prog Y = ALocal f :: r ->
-      step L M (st2 X Y A B) m (st2 X {| loc := f (loc Y); prog := r |} A B).
+      step L M cap (st2 X Y A B) m (st2 X {| loc := f (loc Y); prog := r |} A B).
     Proof. intros HY. unfold step, fire. rewrite st2_m, HY. unfold st2. simpl. rewrite st2_set_m. reflexivity. Qed.
-    Lemma s_send X Y A B g r : prog X = ASend m g :: r ->
-      step L M (st2 X Y A B) s (st2 {| loc := loc X; prog := r |} Y (A ++ [g (loc X)]) B).
+    Lemma s_send X Y A B g r : prog X = ASend m g :: r -> room M cap A = true ->
+      step L M cap (st2 X Y A B) s (st2 {| loc := loc X; prog := r |} Y (A ++ [g (loc X)]) B).
     Proof.
-      intros HX. unfold step, fire. rewrite st2_s, HX, st2_qsm. unfold st2. simpl.
+      intros HX HR. unfold step, fire. rewrite st2_s, HX, st2_qsm, HR. unfold st2. simpl.
       rewrite st2_set_s, st2_set_qsm. reflexivity.
     Qed.
-    Lemma m_send X Y A B g r : prog Y = ASend s g :: r ->
-      step L M (st2 X Y A B) m (st2 X {| loc := loc Y; prog := r |} A (B ++ [g (loc Y)])).
+    Lemma m_send X Y A B g r : prog Y = ASend s g :: r -> room M cap B = true ->
+      step L M cap (st2 X Y A B) m (st2 X {| loc := loc Y; prog := r |} A (B ++ [g (loc Y)])).
     Proof.
-      intros HY. unfold step, fire. rewrite st2_m, HY, st2_qms. unfold st2. simpl.
+      intros HY HR. unfold step, fire. rewrite st2_m, HY, st2_qms, HR. unfold st2. simpl.
       rewrite st2_set_m, st2_set_qms. reflexivity.
     Qed.
     Lemma s_recv X Y A b B h r : prog X = ARecv m h :: r ->
-      step L M (st2 X Y A (b :: B)) s (st2 {| loc := h (loc X) b; prog := r |} Y A B).
+      step L M cap (st2 X Y A (b :: B)) s (st2 {| loc := h (loc X) b; prog := r |} Y A B).
     Proof.
       intros HX. unfold step, fire. rewrite st2_s, HX, st2_qms. unfold st2. simpl.
       rewrite st2_set_s, st2_set_qms. reflexivity.
     Qed.
     Lemma m_recv X Y a A B h r : prog Y = ARecv s h :: r ->
-      step L M (st2 X Y (a :: A) B) m (st2 X {| loc := h (loc Y) a; prog := r |} A B).
+      step L M cap (st2 X Y (a :: A) B) m (st2 X {| loc := h (loc Y) a; prog := r |} A B).
     Proof.
       intros HY. unfold step, fire. rewrite st2_m, HY, st2_qsm. unfold st2. simpl.
       rewrite st2_set_m, st2_set_qsm. reflexivity.
@@ -142,14 +145,14 @@ Section Gen.
       gp (st2 X Y [] []) 10 (st2 {| loc := h4 a2 (g5 b4); prog := rs |} {| loc := f6 b4; prog := rm |} [] []).
     Proof.
       intros HX HY a b b1 a2 b3 b4. simpl in HX, HY.
-      eapply gpS; [apply s_send; exact HX|]. simpl app.
+      eapply gpS; [apply s_send; [exact HX|exact cap1]|]. simpl app.
       eapply gpS; [apply m_recv; exact HY|].
-      eapply gpS; [apply m_send; reflexivity|]. simpl app.
+      eapply gpS; [apply m_send; [reflexivity|exact cap1]|]. simpl app.
       eapply gpS; [apply s_recv; reflexivity|].
-      eapply gpS; [apply s_send; reflexivity|]. simpl app.
+      eapply gpS; [apply s_send; [reflexivity|exact cap1]|]. simpl app.
       eapply gpS; [apply m_recv; reflexivity|].
       eapply gpS; [apply m_local; reflexivity|].
-      eapply gpS; [apply m_send; reflexivity|]. simpl app.
+      eapply gpS; [apply m_send; [reflexivity|exact cap1]|]. simpl app.
       eapply gpS; [apply m_local; reflexivity|].
       eapply gpS; [apply s_recv; reflexivity|].
       simpl. constructor.
@@ -194,12 +197,14 @@ Section Run.
   Variable sched : list row.
   Variable I : nat.
   Variable exchange : bool.
+  Variable cap : option nat.                     (* queue capacity: any, as long as a queue holds one message *)
+  Hypothesis cap1 : room (@msg N St) cap [] = true.
 
   Notation lst := (@lst N St G).
   Notation msg := (@msg N St).
   Notation proc := (proc lst msg).
   Notation net := (net lst msg).
-  Notation gp := (gpath net nat (step lst msg)).
+  Notation gp := (gpath net nat (step lst msg cap)).
   Notation exch := (exch St G steq misfit expo draw).
   Notation do_pair := (do_pair St G steq misfit expo draw).
   Notation slave_actions := (slave_actions St G steq misfit).
@@ -225,7 +230,7 @@ Section Run.
     intros Hsm Ha Hb Pa Pb.
     assert (Ls : s < length ps) by (apply nth_error_Some; rewrite Ha; discriminate).
     assert (Lm : m < length ps) by (apply nth_error_Some; rewrite Hb; discriminate).
-    pose proof (pingpong lst msg ps emptyq s m Hsm Ls Lm a b _ _ _ _ rs _ _ _ _ _ _ rm Pa Pb) as H.
+    pose proof (pingpong lst msg cap cap1 ps emptyq s m Hsm Ls Lm a b _ _ _ _ rs _ _ _ _ _ _ rm Pa Pb) as H.
     cbv zeta in H.
     rewrite (st2_start lst msg ps emptyq s m a b Ha Hb eq_refl eq_refl) in H.
     rewrite (st2_end lst msg ps emptyq s m _ _ eq_refl eq_refl) in H.
@@ -470,10 +475,10 @@ Section Run.
   Theorem all_interleavings (ls : list lst) P : sched_ok sched I exchange (length ls) P ->
     forall k u, gp (init_net ls P) k u ->
       k <= total_steps (length ls) 0 P /\
-      (gterminal net nat (step lst msg) u -> k = total_steps (length ls) 0 P /\ u = final_net ls P).
+      (gterminal net nat (step lst msg cap) u -> k = total_steps (length ls) 0 P /\ u = final_net ls P).
   Proof.
     intros Hok k u Hu. destruct (canonical_run ls P Hok) as [Hp Hd].
-    exact (kahn_unique lst msg _ _ u _ k Hp (all_done_terminal lst msg _ Hd) Hu).
+    exact (kahn_unique lst msg cap _ _ u _ k Hp (all_done_terminal lst msg cap _ Hd) Hu).
   Qed.
 
   (* ---- the computable guard implies the guard ---- *)
